@@ -3,7 +3,9 @@
 //! sharing, key derivation) and C12 (encrypted amounts).
 //! See /verif/DESIGN.md section 5 and /verif/harness/ENGINE_GUIDE.md.
 mod c06;
+mod c12;
 mod c19;
+mod c20;
 mod common;
 
 use vmon_core::{ChildCtx, Engine, Plan, Shard, Tier};
@@ -19,14 +21,14 @@ const SOUNDNESS: &str = "cryptographic soundness is only probed with the cheatin
 impl Engine for E {
     fn name(&self) -> &'static str { "eng-sig" }
 
-    fn props(&self) -> Vec<&'static str> { vec!["C06", "C19"] }
+    fn props(&self) -> Vec<&'static str> { vec!["C06", "C19", "C20", "C12"] }
 
     fn plan(&self, prop: &str, tier: Tier) -> Plan {
         let quick = tier == Tier::Quick;
         let mut p = Plan::default();
         match prop {
             "C06" => {
-                p.cases = if quick { 1500 } else { 30_000 };
+                p.cases = if quick { 1500 } else { 24_000 };
                 p.timeout_s = if quick { 600 } else { 3600 };
                 p.rule = "case = one random access structure (1-5 credentials x 1-5 keys, sparse indices, thresholds 1..n and n+1) with one transaction built by a transactions::construct builder (5/8 plain, 2/8 sponsored V1 with a second access structure) or one chain update (1/8); every signer-subset scenario (exact, all, above, none, one below per credential / per account, unknown credential, unknown key, one invalid signature at/above/below threshold, swapped, wrong digest, bad length) is verified through each library entry point; evaluations = library verdicts (or constructed values) compared with the harness predicate / recomputed value; distinct_nontrivial = cases with at least one accepting and three rejecting scenarios (updates: every case)".into();
                 p.assumptions = s(&[
@@ -37,7 +39,7 @@ impl Engine for E {
                     "the Rust library has no update-instruction verifier: for chain updates only the signing side is judged",
                     SOUNDNESS,
                 ]);
-                let m = if quick { 1 } else { 20 };
+                let m = if quick { 1 } else { 12 };
                 p.floors = floors(&[
                     ("accept.expected", 30_000 * m),
                     ("reject.expected", 200_000 * m),
@@ -134,6 +136,162 @@ impl Engine for E {
                     ("dlog.flip.proof", 450 * m),
                 ]);
             }
+            "C20" => {
+                p.cases = if quick { 600 } else { 10_000 };
+                p.timeout_s = if quick { 900 } else { 5400 };
+                p.rule = "case kind = idx mod 20: multiexp (G1 x3, Ristretto x3, G2 x1; length 0..40, boundary scalars, repeated/identity/negated points; curve multiexp and GenericMultiExp at windows 4 and two random sizes), decoding of 40 candidate strings (G1 x2, G2, Ristretto x2, scalars), hash_to_group on the three curves, Pedersen commitments, secret sharing (all t-subsets for n <= 6, supersets, t-1 subsets; field, integers, exponent), key derivation (SLIP-0010 vector 1, random seeds/paths, BLS KeyGen, wallet); evaluations = individual comparisons with the reference; distinct_nontrivial = distinct cases by hash of their inputs".into();
+                p.assumptions = s(&[
+                    "group law primitives double_point/plus_point are trusted as the basis of the double-and-add reference (they are arkworks / curve25519-dalek additions)",
+                    "arkworks Fq/Fq2 field arithmetic and sqrt, and plain double-and-add `mul_bigint`, are trusted for the independent BLS12-381 classification; the library's own deserialisation, subgroup check and hash-to-curve are not used by the oracle",
+                    "the Ristretto classification is RFC 9496 section 4.3.1 transcribed over num-bigint",
+                    "SLIP-0010 and draft-irtf-cfrg-bls-signature-04 KeyGen are transcribed by the harness over hmac/hkdf/sha2/num-bigint; SLIP-0010 test vector 1 is embedded",
+                    "t-1 shares are expected to give a value different from the secret (false alarm probability ~2^-250)",
+                    "finding F6 (infinity flag with non-zero body / sort flag was accepted by the G1/G2 decoders; repaired in /repo by c2b608181): four pinned witnesses are fed on every decode case as regression inputs and random strings of that shape are judged like every other class",
+                    SOUNDNESS,
+                ]);
+                let m = if quick { 1 } else { 12 };
+                p.floors = floors(&[
+                    ("max.multiexp_len", 38),
+                    ("multiexp.default.g1", 700 * m),
+                    ("multiexp.default.ristretto", 700 * m),
+                    ("multiexp.default.g2", 240 * m),
+                    ("multiexp.generic.w4.g1", 800 * m),
+                    ("multiexp.generic.w4.ristretto", 800 * m),
+                    ("multiexp.generic.w1.g1", 100 * m),
+                    ("multiexp.generic.w8.g1", 100 * m),
+                    ("multiexp.len.0", 200 * m),
+                    ("multiexp.len.30-40", 400 * m),
+                    ("mul_by_scalar.g1", 1_500 * m),
+                    ("mul_by_scalar.ristretto", 1_500 * m),
+                    ("scalar.zero", 1_400 * m),
+                    ("scalar.order-1", 1_400 * m),
+                    ("scalar.pow2-1", 1_400 * m),
+                    ("scalar.pow2", 1_400 * m),
+                    ("scalar.ones-crossing-limb", 1_400 * m),
+                    ("scalar.ones-crossing-all-limbs", 1_400 * m),
+                    ("scalar.alternating-windows", 1_400 * m),
+                    ("decode.g1.class.valid", 3_500 * m),
+                    ("decode.g1.class.not-in-subgroup", 3_000 * m),
+                    ("decode.g1.class.off-curve", 3_000 * m),
+                    ("decode.g1.class.x-not-below-p", 1_500 * m),
+                    ("decode.g1.class.compression-flag-unset", 2_000 * m),
+                    ("decode.g1.class.infinity", 1_500 * m),
+                    ("decode.g1.class.noncanonical-infinity", 4_000 * m),
+                    ("decode.g2.class.noncanonical-infinity", 1_000 * m),
+                    ("decode.wrapper.agg_signature", 500 * m),
+                    ("decode.wrapper.agg_public_key", 300 * m),
+                    ("decode.wrapper.cipher.second", 500 * m),
+                    ("decode.g1.origin.pinned", 900 * m),
+                    ("decode.g2.class.valid", 900 * m),
+                    ("decode.g2.class.not-in-subgroup", 650 * m),
+                    ("decode.g2.class.off-curve", 700 * m),
+                    ("decode.g2.class.x-not-below-p", 850 * m),
+                    ("decode.g2.class.infinity", 380 * m),
+                    ("decode.g2.origin.pinned", 450 * m),
+                    ("decode.ristretto.class.valid", 6_000 * m),
+                    ("decode.ristretto.class.s-negative", 4_500 * m),
+                    ("decode.ristretto.class.s-not-below-p", 3_000 * m),
+                    ("decode.ristretto.class.not-square", 3_000 * m),
+                    ("decode.ristretto.class.t-negative", 1_800 * m),
+                    ("decode.fr.class.below-order", 8_000 * m),
+                    ("decode.fr.class.not-below-order", 10_000 * m),
+                    ("decode.ed25519-scalar.class.below-order", 7_000 * m),
+                    ("decode.ed25519-scalar.class.not-below-order", 11_000 * m),
+                    ("roundtrip.g1", 5_000 * m),
+                    ("roundtrip.g2", 1_300 * m),
+                    ("roundtrip.ristretto", 6_000 * m),
+                    ("hash_to_group.in_group.g1", 240 * m),
+                    ("hash_to_group.in_group.g2", 240 * m),
+                    ("hash_to_group.in_group.ristretto", 240 * m),
+                    ("hash_to_group.deterministic.g1", 240 * m),
+                    ("pedersen.hide.g1", 240 * m),
+                    ("pedersen.vec.g1", 170 * m),
+                    ("sharing.reveal.threshold.g1", 2_700 * m),
+                    ("sharing.reveal.threshold.ristretto", 1_800 * m),
+                    ("sharing.reveal.threshold.g2", 800 * m),
+                    ("sharing.reveal_in_group.threshold.g1", 2_700 * m),
+                    ("sharing.reveal.bigint.threshold.g1", 2_700 * m),
+                    ("sharing.reveal.below.g1", 1_600 * m),
+                    ("sharing.reveal_in_group.below.g1", 1_600 * m),
+                    ("sharing.reveal.above.g1", 700 * m),
+                    ("keys.slip10.vector1", 2_800 * m),
+                    ("keys.slip10.random", 480 * m),
+                    ("keys.slip10.string_path", 400 * m),
+                    ("keys.keygen_bls", 480 * m),
+                    ("keys.keygen_bls_deprecated", 480 * m),
+                    ("keys.wallet.signing_key_path", 2_800 * m),
+                    ("keys.wallet.public_matches_secret", 2_800 * m),
+                    ("keys.wallet.deterministic", 8_000 * m),
+                    ("keys.wallet.distinct_paths", 13_000 * m),
+                ]);
+            }
+            "C12" => {
+                p.cases = if quick { 60 } else { 900 };
+                p.timeout_s = if quick { 900 } else { 5400 };
+                p.rule = "case kind = idx mod 10: encrypt/decrypt of a boundary-weighted amount with ciphertext structure recomputed from the returned randomness (x3), aggregation of two encrypted amounts whose chunk sums stay below 2^32 (x2), encrypted transfer balance/amount pair with honest verification, conservation by decryption, exceeding amounts, and 7-10 perturbations (x2), the same for secret-to-public transfers (x2), chunk model (x1); evaluations = comparisons with integer arithmetic / expected verifier verdicts; distinct_nontrivial = distinct cases by hash of the produced ciphertext / transfer data".into();
+                p.assumptions = s(&[
+                    "integer arithmetic on u64 and the independently written 2 x 32-bit chunk model are the ground truth for amounts",
+                    "group operations plus_point / mul_by_scalar (checked by C20) are used to recompute ciphertext structure",
+                    "fixture: GlobalContext::generate(\"verif-c12\") and one BabyStepGiantStep table of size 2^16 per child process",
+                    "decryption is only attempted when every chunk is below 2^32 (most cases below 2^23 to bound the linear search)",
+                    "the `index` field is documented as not bound by the proofs; only its chain semantics (another aggregate as before_amount) is judged",
+                    SOUNDNESS,
+                ]);
+                let m = if quick { 1 } else { 10 };
+                p.floors = floors(&[
+                    ("amount.2^32-1", 10),
+                    ("amount.2^32", 10),
+                    ("amount.2^32+1", 10),
+                    ("amount.2^64-1", 10),
+                    ("amount.zero", 10),
+                    ("amount.one", 10),
+                    ("accept.expected", 300 * m),
+                    ("reject.expected", 1_100 * m),
+                    ("encrypt.structure", 230 * m),
+                    ("decrypt.roundtrip", 110 * m),
+                    ("decrypt.fixed_randomness", 40 * m),
+                    ("aggregate.decrypt", 75 * m),
+                    ("aggregate.low_chunk_sum_large", 30 * m),
+                    ("transfer.verify.honest", 75 * m),
+                    ("transfer.conservation", 65 * m),
+                    ("transfer.exceeding.none", 75 * m),
+                    ("transfer.exceeding.lie.verify", 70 * m),
+                    ("transfer.pair.equal", 20 * m),
+                    ("transfer.pair.zero", 6 * m),
+                    ("transfer.pair.off_by_one", 4 * m),
+                    ("sec_to_pub.verify.honest", 75 * m),
+                    ("sec_to_pub.conservation", 65 * m),
+                    ("sec_to_pub.exceeding.none", 75 * m),
+                    ("sec_to_pub.exceeding.lie.verify", 70 * m),
+                    ("perturb.remaining.chunk0.component0", 20 * m),
+                    ("perturb.remaining.chunk0.component1", 20 * m),
+                    ("perturb.remaining.chunk1.component0", 20 * m),
+                    ("perturb.remaining.chunk1.component1", 20 * m),
+                    ("perturb.transfer.chunk0.component0", 20 * m),
+                    ("perturb.transfer.chunk0.component1", 20 * m),
+                    ("perturb.transfer.chunk1.component0", 20 * m),
+                    ("perturb.transfer.chunk1.component1", 20 * m),
+                    ("perturb.amounts_swapped", 20 * m),
+                    ("perturb.sender_key", 20 * m),
+                    ("perturb.receiver_key", 20 * m),
+                    ("perturb.keys_swapped", 20 * m),
+                    ("perturb.index.other_aggregate", 20 * m),
+                    ("perturb.before.reencrypted", 20 * m),
+                    ("perturb.proof.spliced", 20 * m),
+                    ("perturb.bitflip.proof", 8 * m),
+                    ("perturb.s2p.remaining.chunk0.component0", 30 * m),
+                    ("perturb.s2p.remaining.chunk1.component1", 30 * m),
+                    ("perturb.s2p.public_amount_plus_one", 30 * m),
+                    ("perturb.s2p.public_amount_bit", 30 * m),
+                    ("perturb.s2p.key", 30 * m),
+                    ("perturb.s2p.index.other_aggregate", 30 * m),
+                    ("perturb.s2p.before.reencrypted", 30 * m),
+                    ("perturb.s2p.proof.spliced", 30 * m),
+                    ("perturb.s2p.bitflip.proof", 12 * m),
+                    ("chunks.model32", 700 * m),
+                    ("chunks.u64_to_chunks", 4_000 * m),
+                ]);
+            }
             _ => {}
         }
         p
@@ -142,7 +300,9 @@ impl Engine for E {
     fn run_child(&self, ctx: &ChildCtx, out: &mut Shard) {
         match ctx.prop.as_str() {
             "C06" => c06::run(ctx, out),
+            "C12" => c12::run(ctx, out),
             "C19" => c19::run(ctx, out),
+            "C20" => c20::run(ctx, out),
             _ => out.inconclusive.push("unknown property".into()),
         }
     }
